@@ -24,10 +24,12 @@ BundleCases ==
   \cup {Case("bundle", ResTypes[i], Window(i, k), "w" \o ToString(k), "", "") : i \in 1..NRes, k \in 1..3}
   \cup {Case("bundle", ResTypes[i], <<ResTypes[i], ResTypes[i]>>, "twice", "", "") : i \in 1..NRes}
 
-(* the shared model resources, and five more documents of other shapes    *)
+(* the shared model resources, and six more documents of other shapes     *)
 (* (spec/data/C20_X*.json: Encounter, MedicationRequest with Dosage/Timing, *)
-(* nested Questionnaire items, Parameters with many value[x], Condition)    *)
-ModelRes     == {"MR1", "MR2", "MR3", "MR4", "C20_X1", "C20_X2", "C20_X3", "C20_X4", "C20_X5"}
+(* nested Questionnaire items, Parameters with many value[x], Condition,    *)
+(* and X6: an Observation with 17 identifiers and 13 components - list      *)
+(* positions of two digits in the labels)                                   *)
+ModelRes     == {"MR1", "MR2", "MR3", "MR4", "C20_X1", "C20_X2", "C20_X3", "C20_X4", "C20_X5", "C20_X6"}
 ExtractTypes == {"Reference", "Identifier", "Coding", "Extension", "string", "dateTime"}
 ExtractCases == {Case("extract", T, <<>>, r \o "~" \o f, r, f) : r \in ModelRes, f \in {"asis", "nocontained"}, T \in ExtractTypes}
 
